@@ -37,11 +37,11 @@ impl verif::GossipProbe for Quiet {
     }
 }
 
-const KINDS: [&str; 4] = ["get_block", "push_block_store_state", "push_validator_addrs", "consensus"];
+const KINDS: [&str; 5] = ["get_block", "push_block_store_state", "push_validator_addrs", "consensus", "ping"];
 
 #[derive(Default)]
 struct Counters {
-    served: [AtomicU64; 4],
+    served: [AtomicU64; 5],
     /// consensus requests handed to the consensus component whose acknowledgement the harness still holds
     pending: AtomicU64,
     max_pending: AtomicU64,
@@ -167,7 +167,8 @@ fn run_case(rep: &mut Report, args: &Args, case: u64, rt: &tokio::runtime::Runti
             connected.store(true, Ordering::SeqCst);
             let clients = verif::GossipClients::new(ctx);
             let ccli = verif::ConsensusClient::new(ctx, limiter::Rate::INF);
-            let (clients, ccli) = (&clients, &ccli);
+            let pcli = verif::PingClient::new(ctx, limiter::Rate::INF);
+            let (clients, ccli, pcli) = (&clients, &ccli, &pcli);
             let state = BlockStoreState { first, last: None }; // an empty range: the node has nothing to fetch from this peer (a failed fetch would make it hang up)
             let _ = (chain, |l: &validator::Block| Last::from(l));
             let state = &state;
@@ -177,7 +178,7 @@ fn run_case(rep: &mut Report, args: &Args, case: u64, rt: &tokio::runtime::Runti
                     Ok(())
                 });
                 s.spawn_bg(async move {
-                    let _ = verif::run_rpc_client(ctx, vstream, Some(ccli), None).await;
+                    let _ = verif::run_rpc_client(ctx, vstream, Some(ccli), Some(pcli)).await;
                     Ok(())
                 });
                 // floods: every call is its own task; the client side has no rate of its own
@@ -207,21 +208,30 @@ fn run_case(rep: &mut Report, args: &Args, case: u64, rt: &tokio::runtime::Runti
                         let _ = ccli.call(ctx, m).await;
                         Ok(())
                     });
+                    // the ping server of the validator connection has a rate of its own that no configuration changes
+                    let c4 = counters.clone();
+                    s.spawn_bg(async move {
+                        if pcli.call(ctx, [i as u8; 32]).await.is_ok() {
+                            c4.served[4].fetch_add(1, Ordering::SeqCst);
+                        }
+                        Ok(())
+                    });
                 }
                 let check = |advanced_ms: i64, phase: &str| {
                     if std::env::var("VERIF_DEBUG").is_ok() {
                         eprintln!("case {case} {phase} advanced {advanced_ms}: served {:?} bursts {:?} refresh {:?}", counters.served.iter().map(|a| a.load(Ordering::SeqCst)).collect::<Vec<_>>(), bursts, refresh_ms);
                     }
-                    for k in 0..4 {
+                    for k in 0..5 {
                         let served = counters.served[k].load(Ordering::SeqCst);
-                        let bound = bursts[k] as u64 + (advanced_ms / refresh_ms[k]) as u64 + 1;
+                        let (burst_k, refresh_k) = if k == 4 { (verif::PING_RATE.burst, verif::PING_RATE.refresh.whole_milliseconds() as i64) } else { (bursts[k], refresh_ms[k]) };
+                        let bound = burst_k as u64 + (advanced_ms / refresh_k.max(1)) as u64 + 1;
                         if served > bound {
                             viol.lock().unwrap().push((
                                 format!("node-rpc-rate-exceeded|{}|node", KINDS[k]),
-                                format!("{phase}: the node served {served} {} requests on one connection after a total clock advance of {advanced_ms} ms; configured burst {} refresh {} ms allows {bound}", KINDS[k], bursts[k], refresh_ms[k]),
+                                format!("{phase}: the node served {served} {} requests on one connection after a total clock advance of {advanced_ms} ms; configured burst {} refresh {} ms allows {bound}", KINDS[k], burst_k, refresh_k),
                             ));
                         }
-                        if served >= bursts[k] as u64 {
+                        if served >= burst_k as u64 {
                             notes.lock().unwrap().push(format!("limit_reached_{}", KINDS[k]));
                         }
                     }
@@ -286,13 +296,13 @@ fn run_case(rep: &mut Report, args: &Args, case: u64, rt: &tokio::runtime::Runti
                     rep.count(&format!("node_{n}"));
                 }
             }
-            for k in 0..4 {
+            for k in 0..5 {
                 rep.add(&format!("node_requests_served_{}", KINDS[k]), counters.served[k].load(Ordering::SeqCst));
             }
             rep.max("node_max_consensus_requests_in_flight", counters.max_pending.load(Ordering::SeqCst));
             if case < 3 {
                 rep.sample(json!({"case": case, "bursts": bursts.to_vec(), "refresh_ms": refresh_ms.to_vec(), "advances_ms": advances,
-                    "served": (0..4).map(|k| counters.served[k].load(Ordering::SeqCst)).collect::<Vec<_>>(), "kinds": KINDS.to_vec(), "flood_per_kind": flood}));
+                    "served": (0..5).map(|k| counters.served[k].load(Ordering::SeqCst)).collect::<Vec<_>>(), "kinds": KINDS.to_vec(), "flood_per_kind": flood}));
             }
         }
     }
